@@ -3,7 +3,7 @@
 use alloc::collections::VecDeque;
 use alloc::sync::Arc;
 use alloc::vec::Vec;
-use core::str::{FromStr, Utf8Error};
+use core::str::FromStr;
 
 use bytes::Bytes;
 use moka::future::Cache;
@@ -989,12 +989,20 @@ pub async fn cached_nsec3_hash(
     hash
 }
 
+/// The first label of an owner name is not a Base32hex-encoded NSEC3 hash.
+#[derive(Clone, Copy, Debug)]
+pub struct BadOwnerHash;
+
 /// Convert a label to an NSEC3 hash value.
+///
+/// The label comes straight from a response, so it may contain anything.
+/// Any label that is not valid Base32hex results in an error.
 pub fn nsec3_label_to_hash(
     label: &Label,
-) -> Result<OwnerHash<Vec<u8>>, Utf8Error> {
-    let label_str = core::str::from_utf8(label.as_ref())?;
-    Ok(OwnerHash::<Vec<u8>>::from_str(label_str).expect("should not fail"))
+) -> Result<OwnerHash<Vec<u8>>, BadOwnerHash> {
+    let label_str =
+        core::str::from_utf8(label.as_ref()).map_err(|_| BadOwnerHash)?;
+    OwnerHash::<Vec<u8>>::from_str(label_str).map_err(|_| BadOwnerHash)
 }
 
 /// Is targethash in the range between ownerhash and nexthash?
